@@ -42,34 +42,40 @@ def parse_emit(out):
     return alpha, paths
 
 
-def judge(alpha, paths, obs, ev, label):
-    """Write the trace file, run Trace_Resolve under TLC, return (fails, drifts, done)."""
+def judge(alpha, paths, obs, ev, label, batch=20000):
+    """Write the trace file(s), run Trace_Resolve under TLC (in batches), return (fails, drifts) with
+    1-based trace ids over the whole list."""
     vlib.WORK.mkdir(exist_ok=True)
     import os, time
-    tf = vlib.WORK / f"trace-{os.getpid()}-{time.time_ns()}.json"
     traces = []
     for (p, _, _), o in zip(paths, obs):
         traces.append({"p": p, "g": o["groups"] or [], "r": o["raised"] or "",
                        "pre": [[g for g in pre] for pre in o["prefix"]] if not o["raised"] else []})
-    tf.write_text(json.dumps({"alpha": alpha, "traces": traces}))
-    try:
-        r = run_tlc("Trace_Resolve", "Trace_Resolve.cfg", env={"TRACE_FILE": str(tf)}, timeout=3000)
-    finally:
-        tf.unlink(missing_ok=True)
-    tlc_must_pass(r, f"Trace_Resolve {label}")
-    fails, drifts, done = [], [], set()
-    for line in r.out.splitlines():
-        if line.startswith('<<"FAIL"'):
-            m = re.match(r'^<<"FAIL", (\d+), "([\w.]+)">>$', line)
-            fails.append((int(m.group(1)), m.group(2)))
-        elif line.startswith('<<"DRIFT"'):
-            m = re.match(r'^<<"DRIFT", (\d+), (\d+), (.*)>>$', line)
-            drifts.append((int(m.group(1)), int(m.group(2)), m.group(3)))
-        elif line.startswith('<<"DONE"'):
-            done.add(int(line[9:-2]))
-    if len(done) != len(traces):
-        raise MachineryError(f"Trace_Resolve {label}: {len(done)} of {len(traces)} traces consumed to the end")
-    ev.add_tlc(f"Trace_Resolve[{label}]", r, f"{len(traces)} recorded traces")
+    fails, drifts = [], []
+    for b in range(0, len(traces), batch):
+        part = traces[b:b + batch]
+        tf = vlib.WORK / f"trace-{os.getpid()}-{time.time_ns()}.json"
+        tf.write_text(json.dumps({"alpha": alpha, "traces": part}))
+        try:
+            r = run_tlc("Trace_Resolve", "Trace_Resolve.cfg", env={"TRACE_FILE": str(tf)}, timeout=3000)
+        finally:
+            tf.unlink(missing_ok=True)
+        tlc_must_pass(r, f"Trace_Resolve {label}")
+        done = set()
+        for line in r.out.splitlines():
+            if line.startswith('<<"FAIL"'):
+                m = re.match(r'^<<"FAIL", (\d+), "([\w.]+)">>$', line)
+                fails.append((b + int(m.group(1)), m.group(2)))
+            elif line.startswith('<<"DRIFT"'):
+                m = re.match(r'^<<"DRIFT", (\d+), (\d+), (.*)>>$', line)
+                drifts.append((b + int(m.group(1)), int(m.group(2)), m.group(3)))
+            elif line.startswith('<<"DONE"'):
+                done.add(int(line[9:-2]))
+        if len(done) != len(part):
+            raise MachineryError(f"Trace_Resolve {label}: {len(done)} of {len(part)} traces consumed to the end")
+        ev.add_tlc(f"Trace_Resolve[{label}#{b // batch}]", r, f"{len(part)} recorded traces")
+        ev.add_hits(r.out)
+        del r
     return fails, drifts
 
 
@@ -135,7 +141,7 @@ def main(pid):
         total_paths += len(paths)
         ev.cov["tlc_runs"].append({"name": "MC_Resolve_Full simulate", "walk_prefixes_replayed": len(paths),
                                    "constants": "M=150 MaxPh=3 MaxFulls=6 depth 10"})
-        fails, drifts = judge(alpha, paths, obs, ev, "Full-sim")
+        fails, drifts = judge(alpha, paths, obs, ev, "Full-sim", batch=4000)
         for tid, cl in fails:
             if cl in mine:
                 p = paths[tid - 1][0]
@@ -169,6 +175,7 @@ def main(pid):
             tf.unlink(missing_ok=True)
         tlc_must_pass(r, "Trace_Resolve docs")
         ev.add_tlc(f"Trace_Resolve[docs#{b // 2000}]", r, f"{len(part)} extracted lists")
+        ev.add_hits(r.out)
         ndone = 0
         for line in r.out.splitlines():
             if line.startswith('<<"FAIL"'):
